@@ -320,3 +320,145 @@ def native_read_bytes_check(model):
 
 
 ShardReadBytes.replay = lambda self, model, cfg, ob_name: native_read_bytes_check(model)
+
+
+# --------------------------------------------------------------------------- ShardCMC.populate_minishard_dict (reader side)
+
+class _TagDecoder(Contract):
+    props = ()
+    has_body = False
+    which = ""
+
+    def setup(self, c, cfg):
+        raise NotImplementedError
+
+    def apply(self, interp, fn, args, kwargs):
+        c = ctx()
+        src = args[1]
+        out = SBytes.fresh(c, c.fresh_name(self.which + "_decoded"), inp=False)
+        c.assume(out.len < (1 << 50))
+        out.decoded_by = (self.which, src)
+        c.calls_log.append((self.target, {"b": src}, out))
+        return out
+
+
+class IndexDecoderAbs(_TagDecoder):
+    target = SB + "ShardSpec.index_decoder"
+    name = "ShardSpec.index_decoder[call-site]"
+    which = "index"
+
+
+class DataDecoderTagAbs(_TagDecoder):
+    target = SB + "ShardSpec.data_decoder"
+    name = "ShardSpec.data_decoder[call-site:tagged]"
+    which = "data"
+
+
+class ReadableInitAbs(Contract):
+    """ReadableMiniShardCMC(parent, buffer) at the call site: remembers both; its index starts with some id"""
+    target = SB + "ReadableMiniShardCMC.__init__"
+    name = "ReadableMiniShardCMC.__init__[call-site]"
+    props = ()
+    has_body = False
+
+    def setup(self, c, cfg):
+        raise NotImplementedError
+
+    def apply(self, interp, fn, args, kwargs):
+        c = ctx()
+        obj, parent, buf = args[0], args[1], args[2]
+        first = c.u64(c.fresh_name("first_id"))
+        obj.attrs["parent_shard"] = parent
+        obj.attrs["_buffer"] = buf
+        obj.attrs["minishard_index"] = [first]
+        c.calls_log.append((self.target, {"self": obj, "parent": parent, "buf": buf, "first": first}, None))
+        return None
+
+
+@register
+class PopulateMinishardDict(Contract):
+    """populate_minishard_dict of a readable shard with 2^minishard_bits index slots: every non-empty slot
+    (start != end) is read at [header + start, header + end), decoded with the INDEX decoder (not the data
+    decoder), turned into a ReadableMiniShardCMC of this shard and registered under the minishard number of
+    its first id; empty slots are skipped; nothing else is read"""
+    target = SB + "ShardCMC.populate_minishard_dict"
+    props = ("C05", "C14")
+    use_at_call_sites = False
+    configs = (0, 1, "not-readable")
+    timeout_ms = 60000
+
+    def local_contracts_for(self, cfg):
+        return {k.target: k() for k in (IndexDecoderAbs, DataDecoderTagAbs, ReadableInitAbs)}
+
+    def setup(self, c, cfg):
+        from neuroglancer_scripts.sharded_base import ShardCMC
+        from ._common import mk_shard_spec
+        self.cfg = cfg
+        mb = 0 if cfg == "not-readable" else cfg
+        self.nslots = 1 << mb
+        self.H = 16 * self.nslots
+        spec = mk_shard_spec(c)
+        a = spec.attrs
+        c.assume(SBool(z3.And(a["minishard_bits"].t == z3.BitVecVal(mb, 64), a["shard_bits"].t == z3.BitVecVal(0, 64), a["preshift_bits"].t == z3.BitVecVal(0, 64))))
+        self.file = SBytes.fresh(c, "shard_file")
+        self.obj = SObj(ShardCMC, {"shard_spec": spec, "can_read_cmc": cfg != "not-readable", "header_byte_length": self.H,
+                                   "ro_minishard_dict": {}, "minishard_dict": {}})
+        self.obj.ghost = {"file": self.file}
+        self.slots = []
+        for m in range(self.nslots):
+            s_ = read_uint_le(self.file, 16 * m)
+            e_ = read_uint_le(self.file, 16 * m + 8)
+            self.slots.append((s_, e_))
+        c.assume(self.file.len >= self.H)
+        # well-formed index: ranges inside the file, start <= end, below 2^50
+        for s_, e_ in self.slots:
+            c.assume(And(s_ <= e_, self.H + e_ <= self.file.len, e_ < (1 << 50)))
+        return (self.obj,), {}
+
+    def bind(self, fn, args, kwargs):
+        return {}
+
+    def ensures(self, c, result):
+        log = c.calls_log
+        reads = [x for x in log if x[0].endswith("read_bytes")]
+        inits = [x for x in log if x[0] == ReadableInitAbs.target]
+        idec = [x for x in log if x[0] == IndexDecoderAbs.target]
+        ddec = [x for x in log if x[0] == DataDecoderTagAbs.target]
+        if self.cfg == "not-readable":
+            yield ("a-shard-without-a-readable-file-reads-nothing", not reads and not inits)
+            return
+        yield ("the-data-decoder-is-not-applied-to-minishard-indices", not ddec)
+        nonempty = [m for m, (s_, e_) in enumerate(self.slots) if c.interp.truth(s_ != e_)]
+        yield ("one-minishard-object-per-non-empty-slot", len(inits) == len(nonempty) and len(idec) == len(nonempty))
+        yield ("reads:the-shard-index-then-one-range-per-non-empty-slot", len(reads) == 1 + len(nonempty))
+        if len(inits) != len(nonempty) or len(idec) != len(nonempty) or len(reads) != 1 + len(nonempty):
+            return
+        yield ("first-read-is-the-shard-index[0, header length)", And(reads[0][1]["offset"] == 0, reads[0][1]["length"] == self.H))
+        # well-formed file (precondition, sharded.md): the index found in slot m lists ids of minishard number m
+        for k, m in enumerate(nonempty):
+            c.assume(SBool((inits[k][1]["first"].t & z3.BitVecVal(self.nslots - 1, 64)) == z3.BitVecVal(m, 64)))
+        d = self.obj.attrs["ro_minishard_dict"]
+        for k, m in enumerate(nonempty):
+            s_, e_ = self.slots[m]
+            rd = reads[1 + k][1]
+            yield (f"slot{m}:reads-[header+start, header+end)", And(rd["offset"] == self.H + s_, rd["length"] == e_ - s_))
+            raw = reads[1 + k][2]
+            yield (f"slot{m}:the-bytes-read-go-through-the-index-decoder", idec[k][1]["b"] is raw)
+            yield (f"slot{m}:minishard-object-built-from-the-decoded-index,with-this-shard-as-parent",
+                   inits[k][1]["buf"] is idec[k][2] and inits[k][1]["parent"] is self.obj)
+            first = inits[k][1]["first"]
+            want_key = SU64(first.t & z3.BitVecVal(self.nslots - 1, 64))
+            regs = [kk for kk, v in d.items() if v is inits[k][1]["self"]]
+            yield (f"slot{m}:registered-once", len(regs) == 1)
+            if len(regs) == 1:
+                kk = regs[0]
+                kt = kk if isinstance(kk, SU64) else SU64(z3.BitVecVal(int(kk), 64))
+                yield (f"slot{m}:registered-under-the-minishard-number-of-its-first-id", kt == want_key)
+
+    def raises_when(self, c):
+        return []
+
+
+def read_uint_le(sb, off):
+    from pyvc.sbytes import le_compose
+    return le_compose(sb.fn, off, 8)
